@@ -211,8 +211,14 @@ func (P *curvePoint) UnmarshalBinary(buf []byte) error {
 		return fmt.Errorf("invalid point format: expected uncompressed (4), got %d", buf[0])
 	}
 
-	P.x = new(big.Int).SetBytes(buf[1 : 1+byteLen])
-	P.y = new(big.Int).SetBytes(buf[1+byteLen : 1+2*byteLen])
+	x := new(big.Int).SetBytes(buf[1 : 1+byteLen])
+	y := new(big.Int).SetBytes(buf[1+byteLen : 1+2*byteLen])
+	// Only points of the curve (or the all-zero encoding of the point at
+	// infinity) may be accepted: crypto/elliptic panics on anything else.
+	if !(x.Sign() == 0 && y.Sign() == 0) && !P.c.IsOnCurve(x, y) {
+		return errors.New("invalid elliptic curve point")
+	}
+	P.x, P.y = x, y
 	return nil
 }
 
